@@ -244,6 +244,22 @@ RUN_DEFAULTS = """adaptive_backpressure {
   trend_signals {
     window 15m
   }"""
+TREND_DEFAULTS = """adaptive_backpressure {
+    enabled on
+    min_total 1
+    queued_percent 95
+    ready_lag 1h
+    oldest_queued_age 1h
+    sustained_growth on
+  }
+  trend_signals {
+    window %s
+    expected_capture_interval 1m
+    stale_grace_factor 3
+    sustained_growth_consecutive 3
+    sustained_growth_min_samples 5
+    sustained_growth_min_delta 10
+  }"""
 DELTA_DEFAULTS = """adaptive_backpressure {
     enabled on
     min_total 4
@@ -369,6 +385,18 @@ def failed_cases(rng, tier):
     add("control:tokens-only", "control", new=config(running_routes(), **{k: v for k, v in dk.items() if k != "defaults"}), expect="ok")
     add("control:admission-only", "control", new=config(running_routes(), defaults=DELTA_DEFAULTS), expect="ok")
     add("control:noop", "control", new=run, expect="ok")
+    # the admission controller grades a backlog HISTORY (sustained growth): a reload that changes nothing but the window of history to
+    # look at must decide the next request as a process started on the new file does - a burst ten to five minutes ago is inside a
+    # 15-minute window and outside a 3-minute one.  (Own probe set: every probe shows the same history, so what the controller
+    # remembers between probes cannot differ from probe to probe.)
+    trend = [10, 10, 10, 10, 10, 10, 100, 100, 100, 100, 100]
+    tprobes = {"ingress": [{"method": "POST", "path": "/e", "body_len": 3}], "pull": [], "admin": [], "worker": [], "seed_routes": ["/a", "/b", "/c", "/d", "/e"],
+               "adaptive": [{"queued": 10, "leased": 90, "age_sec": 0, "route": rt, "trend": trend} for rt in ("/e", "/d", "/e")]}
+    for w_old, w_new in (("15m", "3m"), ("3m", "15m")):
+        add("control:trend-window-%s-to-%s" % (w_old, w_new), "control", running=config(running_routes(), defaults=TREND_DEFAULTS % w_old),
+            new=config(running_routes(), defaults=TREND_DEFAULTS % w_new), expect="ok", probes=tprobes, limit_hit=None)
+        add("control:trend-window-%s-to-%s-refresh-in-flight" % (w_old, w_new), "control", running=config(running_routes(), defaults=TREND_DEFAULTS % w_old),
+            new=config(running_routes(), defaults=TREND_DEFAULTS % w_new), expect="ok", probes=tprobes, limit_hit=None, trend_refresh_in_flight=True)
     # unreadable
     add("unreadable:missing", "unreadable", file_kind="missing")
     add("unreadable:directory", "unreadable", file_kind="dir")
